@@ -102,6 +102,16 @@ func (sh *shaper) expr(e ast.Expr) string {
 		return sh.expr(e.Fun) + "(" + strings.Join(args, ",") + ")"
 	case *ast.ArrayType:
 		return "[]" + sh.expr(e.Elt)
+	case *ast.FuncLit:
+		var ps []string
+		if e.Type.Params != nil {
+			for _, f := range e.Type.Params.List {
+				for _, n := range f.Names {
+					ps = append(ps, n.Name)
+				}
+			}
+		}
+		return "func(" + strings.Join(ps, ",") + "){" + sh.block(e.Body) + "}"
 	}
 	return fmt.Sprintf("<%T>", e)
 }
@@ -123,7 +133,7 @@ func (sh *shaper) stmt(s ast.Stmt) string {
 	case *ast.ForStmt:
 		return "for(" + strings.TrimSuffix(sh.stmt(s.Init), ";") + ";" + sh.expr(s.Cond) + ";" + strings.TrimSuffix(sh.stmt(s.Post), ";") + "){" + sh.block(s.Body) + "}"
 	case *ast.IfStmt:
-		r := "if(" + strings.TrimSuffix(sh.stmt(s.Init), ";") + sh.expr(s.Cond) + "){" + sh.block(s.Body) + "}"
+		r := "if(" + sh.stmt(s.Init) + sh.expr(s.Cond) + "){" + sh.block(s.Body) + "}"
 		if s.Else != nil {
 			r += "else" + sh.stmt(s.Else)
 		}
@@ -181,12 +191,12 @@ func (sh *shaper) stmt(s ast.Stmt) string {
 func emitParseShape(g *gen, dir string, quote byte, comments, seps string) {
 	sh := &shaper{quote: quote, comments: comments, seps: seps}
 	if fd := g.funcDecl(dir, "TestScript.parse"); fd != nil {
-		g.emitBytesLit("ts_parse_shape", "testscript (*TestScript).parse: structural fingerprint (see gen_tsparse_shape.go)", sh.block(fd.Body))
+		g.emitBytesLit("ts_parse_shape", "testscript TestScript.parse: structural fingerprint (see gen_tsparse_shape.go)", sh.block(fd.Body))
 	}
 	if fd := g.funcDecl(dir, "TestScript.expand"); fd != nil {
-		g.emitBytesLit("ts_expand_shape", "testscript (*TestScript).expand: structural fingerprint", sh.block(fd.Body))
+		g.emitBytesLit("ts_expand_shape", "testscript TestScript.expand: structural fingerprint", sh.block(fd.Body))
 	}
 	if fd := g.funcDecl(dir, "TestScript.doCmdCmp"); fd != nil {
-		g.emitBytesLit("ts_cmp_shape", "testscript (*TestScript).doCmdCmp: structural fingerprint", sh.block(fd.Body))
+		g.emitBytesLit("ts_cmp_shape", "testscript TestScript.doCmdCmp: structural fingerprint", sh.block(fd.Body))
 	}
 }
